@@ -79,6 +79,12 @@ def harness(cn, op):
     if shape == 't3' and name == 'insert_range':
         L.append('    for (uint64_t i = 0; i < RLEN; i++) __CPROVER_assume(d1[i]._0 == G_MS && tlru_ttl_ok(G_NOW, d1[i]._0)); /* one TTL value per call (conversion abstraction) */')
     L.append('    s2 = s1;')
+    purge = cn in ('ut_map', 'ut_set')
+    if purge:
+        # ut_map/ut_set: every public operation, range or single, first purges the entries expired at `now` (C17); an
+        # EMPTY range therefore still purges.  The reference side performs that one purge explicitly, then the singles
+        # (each of which purges again at the same instant: idempotent).
+        L.append('    %s__clean_expired_values(&s2); /* the purge that opens every ut_map/ut_set operation */' % cn)
     if rng:
         L.append('    %s r1; r1.len = n; r1.data = d1;' % rng)
     if kind == 'count':
@@ -107,7 +113,10 @@ def harness(cn, op):
             L.append('    for (uint64_t i = 0; i < RLEN; i++) if (i < n) { bool r = %s; __CPROVER_assert(d1[i].first == d2[i].first && d1[i].second == r, "C18 %s::%s: element filled with the result of the single lookup [C01 C18]"); }' % (call2, cn, name))
     L.append('    __CPROVER_assert(%s_view_eq(&s1, &s2, G_g) && %s_size(&s1) == %s_size(&s2), "C18 %s::%s: same effect on every key as the single operations in order [C18]");' % (pfx, pfx, pfx, cn, name))
     L.append('    __CPROVER_assert(%s_wf(&s1), "C18 %s::%s: representation invariant preserved [C18]");' % (pfx, cn, name))
-    L.append('    __CPROVER_assert(!s1.m_lock.m_lock.held && s1.m_lock.m_lock.acq == s2.m_lock.m_lock.acq - (n == 0 ? 0 : n - 1) + (n == 0 ? 1 : 0), "C18 %s::%s: the whole range runs in ONE critical section [C06 C18]");' % (cn, name))
+    if purge:
+        L.append('    __CPROVER_assert(!s1.m_lock.m_lock.held && s1.m_lock.m_lock.acq + n == s2.m_lock.m_lock.acq, "C18 %s::%s: the whole range runs in ONE critical section [C06 C18]");' % (cn, name))
+    else:
+        L.append('    __CPROVER_assert(!s1.m_lock.m_lock.held && s1.m_lock.m_lock.acq == s2.m_lock.m_lock.acq - (n == 0 ? 0 : n - 1) + (n == 0 ? 1 : 0), "C18 %s::%s: the whole range runs in ONE critical section [C06 C18]");' % (cn, name))
     L.append('    __CPROVER_assert(0, "vacuity sentinel: must be reachable (fails iff the preconditions are satisfiable)");')
     L.append('}')
     return '\n'.join(L)
@@ -136,7 +145,7 @@ class RelUnit:
 
     def key(self):
         cst = engine.hash_files(engine.files_under(os.path.join(engine.VERIF, 'cstl')) + engine.files_under(os.path.join(engine.VERIF, 'contracts'), {'.h'}))
-        return engine.sha(self.id, self.source(), cst, engine.file_bytes(os.path.join(self.gen, 'gen_common.h')), engine.file_bytes(os.path.join(self.gen, self.info['cname'] + '.h')), 'rel-v3')
+        return engine.sha(self.id, self.source(), cst, engine.file_bytes(os.path.join(self.gen, 'gen_common.h')), engine.file_bytes(os.path.join(self.gen, self.info['cname'] + '.h')), 'rel-v4')
 
 
 def run_rel(unit, want_trace=False):
